@@ -264,6 +264,37 @@ class UnrollExec(SymExec):
             return [(lambda s0, row=row: tuple(f(s0) for f in row)) for row in zip(*cols)]
         return None
 
+    def e_ListComp(self, n, st):
+        """a comprehension with one generator over a sequence of known length (string / tuple / list literal or local) is the list of its
+        element expressions: `[getattr(m, 'c_' + k)[i] for k in 'abcd']` reads the same four entries as four look-ups written out"""
+        if len(n.generators) != 1 or n.generators[0].is_async:
+            return SymExec.e_ListComp(self, n, st)
+        g = n.generators[0]
+        seq = self._known_sequence(g.iter, st)
+        if seq is None and isinstance(g.iter, ast.Constant) and isinstance(g.iter.value, str):
+            seq = [(lambda s0, ch=ch: ch) for ch in g.iter.value]
+        if seq is None and isinstance(g.iter, ast.Name) and isinstance(st.env.get(g.iter.id), str):
+            seq = [(lambda s0, ch=ch: ch) for ch in st.env[g.iter.id]]
+        if seq is None or len(seq) > 12:
+            return SymExec.e_ListComp(self, n, st)
+        out = []
+        for thunk in seq:
+            sub = st.fork()
+            n_ev = len(sub.events)
+            self.assign(g.target, thunk(sub), sub, n)
+            keep = True
+            for c in g.ifs:
+                t = self.decide(c, sub)
+                if t is None:
+                    return SymExec.e_ListComp(self, n, st)
+                keep = keep and t
+            if keep:
+                out.append(self.ev(n.elt, sub))
+            st.events.extend(sub.events[n_ev:])
+        return out
+
+    e_GeneratorExp = e_ListComp
+
     def branch(self, test, body, orelse, st):
         """SymExec.branch, and a ('test', text, outcome) event at the place of the path where an undecided test is taken: rules that ask
         what was already known when a call was made need the order of tests and effects"""
@@ -639,7 +670,7 @@ def run(repo, chk):
     g2 = sp.Rational("9.81") * 2
 
     # ---------------------------------------------------------------- R-C08-1 law
-    fn, paths, ex = B.run_builder(repo, CON, "leak_constraint.build")
+    fn, paths, ex = run_builder_unrolled(repo, CON, "leak_constraint.build")
     chk.fn(fn)
     got_law = False
     for p in paths:
@@ -1119,4 +1150,7 @@ WITNESSES = [
     dict(name='remove-leak-discards-controls-that-also-do-other-things', file=ELEM, old="        # the leak controls may have lost their names (from_dict, convert_controls_to_rules): discard every control\n        # that does nothing but switch this node's leak on or off\n        for control_name, control in list(wn.controls()):\n            targets = [action.target() for action in control.actions()]\n            if targets and all(obj is self and attr == 'leak_status' for obj, attr in targets):\n                wn._discard_control(control_name)\n        \n    def add_fire_fighting_demand", new="        # the leak controls may have lost their names (from_dict, convert_controls_to_rules): discard every control\n        # that does nothing but switch this node's leak on or off\n        for control_name, control in list(wn.controls()):\n            targets = [action.target() for action in control.actions()]\n            if any(obj is self and attr == 'leak_status' for obj, attr in targets):\n                wn._discard_control(control_name)\n        \n    def add_fire_fighting_demand", rule='R-C08-9'),
     dict(name='remove-leak-discards-leak-controls-of-other-nodes', file=ELEM, old="        # the leak controls may have lost their names (from_dict, convert_controls_to_rules): discard every control\n        # that does nothing but switch this node's leak on or off\n        for control_name, control in list(wn.controls()):\n            targets = [action.target() for action in control.actions()]\n            if targets and all(obj is self and attr == 'leak_status' for obj, attr in targets):\n                wn._discard_control(control_name)\n        \n    def add_fire_fighting_demand", new="        # the leak controls may have lost their names (from_dict, convert_controls_to_rules): discard every control\n        # that does nothing but switch this node's leak on or off\n        for control_name, control in list(wn.controls()):\n            targets = [action.target() for action in control.actions()]\n            if targets and all(attr == 'leak_status' for obj, attr in targets):\n                wn._discard_control(control_name)\n        \n    def add_fire_fighting_demand", rule='R-C08-9'),
     dict(name='add-leak-controls-by-module-helper-with-schedule-table-preserving', file=ELEM, old='        if start_time is not None:\n            start_control_action = ControlAction(self, \'leak_status\', True)\n            control = Control._time_control(wn, start_time, \'SIM_TIME\', False, start_control_action)\n            wn.add_control(self._leak_start_control_name, control)\n\n        if end_time is not None:\n            end_control_action = ControlAction(self, \'leak_status\', False)\n            control = Control._time_control(wn, end_time, \'SIM_TIME\', False, end_control_action)\n            wn.add_control(self._leak_end_control_name, control)\n\n    def remove_leak(self,wn):\n        """\n        Remove a leak control', new='        _add_leak_time_controls(self, wn, start_time, end_time)\n\n    def remove_leak(self,wn):\n        """\n        Remove a leak control', also=[('class Junction(Node):\n', "def _add_leak_time_controls(node, wn, start_time, end_time):\n    from wntr.network.controls import ControlAction, Control\n    schedule = ((start_time, True, node._leak_start_control_name),\n                (end_time, False, node._leak_end_control_name))\n    for switch_time, leak_status, control_name in schedule:\n        if switch_time is None:\n            continue\n        control_action = ControlAction(node, 'leak_status', leak_status)\n        control = Control._time_control(wn, switch_time, 'SIM_TIME', False, control_action)\n        wn.add_control(control_name, control)\n\n\nclass Junction(Node):\n")], silent=True),
+    # ---- round 2: coefficient look-ups as one getattr comprehension over 'abcd', head/elevation as conditional expressions on one flag
+    dict(name='leak-row-coefficients-by-getattr-comprehension-preserving', file=CON, old='                leak_rate = m.leak_rate[node_name]\n                if isinstance(node, wntr.network.Junction):\n                    h = m.head[node_name]\n                    elev = m.elevation[node_name]\n                else:\n                    h = m.source_head[node_name]\n                    elev = node.elevation\n                delta = m.leak_delta\n                slope = m.leak_slope\n                a = m.leak_poly_coeffs_a[node_name]\n                b = m.leak_poly_coeffs_b[node_name]\n                c = m.leak_poly_coeffs_c[node_name]\n                d = m.leak_poly_coeffs_d[node_name]\n                area = m.leak_area[node_name]\n                Cd = m.leak_coeff[node_name]\n                con = aml.ConditionalExpression()\n                con.add_condition(aml.inequality(h, ub=elev), leak_rate - slope*(h-elev))\n                con.add_condition(aml.inequality(h - elev, ub=delta), leak_rate - (a*(h-elev)**3 + b*(h-elev)**2 + c*(h-elev) + d))\n                con.add_final_expr(leak_rate - Cd*area*(2.0*9.81*(h-elev))**0.5)\n                con = aml.Constraint(con)\n\n                m.leak_con[node_name] = con\n', new="                at_junction = isinstance(node, wntr.network.Junction)\n                h = m.head[node_name] if at_junction else m.source_head[node_name]\n                elev = m.elevation[node_name] if at_junction else node.elevation\n\n                leak_rate = m.leak_rate[node_name]\n                area = m.leak_area[node_name]\n                Cd = m.leak_coeff[node_name]\n                a, b, c, d = [getattr(m, 'leak_poly_coeffs_' + key)[node_name] for key in 'abcd']\n\n                residual = aml.ConditionalExpression()\n                residual.add_condition(aml.inequality(h, ub=elev),\n                                       leak_rate - m.leak_slope*(h-elev))\n                residual.add_condition(aml.inequality(h - elev, ub=m.leak_delta),\n                                       leak_rate - (a*(h-elev)**3 + b*(h-elev)**2 + c*(h-elev) + d))\n                residual.add_final_expr(leak_rate - Cd*area*(2.0*9.81*(h-elev))**0.5)\n\n                m.leak_con[node_name] = aml.Constraint(residual)\n", silent=True),
+    dict(name='leak-row-coefficients-by-getattr-comprehension-misordered', file=CON, old='                leak_rate = m.leak_rate[node_name]\n                if isinstance(node, wntr.network.Junction):\n                    h = m.head[node_name]\n                    elev = m.elevation[node_name]\n                else:\n                    h = m.source_head[node_name]\n                    elev = node.elevation\n                delta = m.leak_delta\n                slope = m.leak_slope\n                a = m.leak_poly_coeffs_a[node_name]\n                b = m.leak_poly_coeffs_b[node_name]\n                c = m.leak_poly_coeffs_c[node_name]\n                d = m.leak_poly_coeffs_d[node_name]\n                area = m.leak_area[node_name]\n                Cd = m.leak_coeff[node_name]\n                con = aml.ConditionalExpression()\n                con.add_condition(aml.inequality(h, ub=elev), leak_rate - slope*(h-elev))\n                con.add_condition(aml.inequality(h - elev, ub=delta), leak_rate - (a*(h-elev)**3 + b*(h-elev)**2 + c*(h-elev) + d))\n                con.add_final_expr(leak_rate - Cd*area*(2.0*9.81*(h-elev))**0.5)\n                con = aml.Constraint(con)\n\n                m.leak_con[node_name] = con\n', new="                at_junction = isinstance(node, wntr.network.Junction)\n                h = m.head[node_name] if at_junction else m.source_head[node_name]\n                elev = m.elevation[node_name] if at_junction else node.elevation\n\n                leak_rate = m.leak_rate[node_name]\n                area = m.leak_area[node_name]\n                Cd = m.leak_coeff[node_name]\n                a, b, c, d = [getattr(m, 'leak_poly_coeffs_' + key)[node_name] for key in 'abdc']\n\n                residual = aml.ConditionalExpression()\n                residual.add_condition(aml.inequality(h, ub=elev),\n                                       leak_rate - m.leak_slope*(h-elev))\n                residual.add_condition(aml.inequality(h - elev, ub=m.leak_delta),\n                                       leak_rate - (a*(h-elev)**3 + b*(h-elev)**2 + c*(h-elev) + d))\n                residual.add_final_expr(leak_rate - Cd*area*(2.0*9.81*(h-elev))**0.5)\n\n                m.leak_con[node_name] = aml.Constraint(residual)\n", rule='R-C08-1'),
 ]
